@@ -144,6 +144,41 @@ ACCUMULATE_EXCEPTIONS = {
 }
 
 
+def union_reachable_through_or(db: ProgramDB) -> Optional[str]:
+    """None if `_optimize_or` provably always builds ElseIf, else the fact that fails.  It always builds ElseIf because
+    (1) it chooses by comparing, with ==, the results of two `.filter(...)` calls on variable sets, (2) HashedIterable.filter
+    wraps a lazy iterator and passes no `values`, so the result's memo is empty until it is iterated, and (3)
+    HashedIterable.__eq__ compares the memos only."""
+    fn = db.fn("symbolic:_optimize_or", required=False)
+    if fn is None:
+        return "_optimize_or not found"
+    tests = [n for n in own_nodes(fn.node) if isinstance(n, ast.If) and isinstance(n.test, ast.Compare) and isinstance(n.test.ops[0], ast.Eq)]
+    if not tests:
+        return "_optimize_or no longer chooses by comparing two variable sets"
+    defs = local_defs(fn)
+    for nm in [x.id for x in ast.walk(tests[0].test) if isinstance(x, ast.Name)]:
+        ds = [d for d in defs.get(nm, []) if isinstance(d, ast.AST)]
+        if not ds or not all(isinstance(d, ast.Call) and call_attr(d) == "filter" for d in ds):
+            return f"`{nm}` in _optimize_or is not the result of .filter(...)"
+    hi = db.cls("HashedIterable")
+    flt = hi.methods.get("filter")
+    if flt is None:
+        return "HashedIterable.filter not found"
+    rets = [r for r in own_nodes(flt.node) if isinstance(r, ast.Return) and r.value is not None]
+    for r in rets:
+        v = r.value
+        lazy = isinstance(v, ast.Call) and (dotted(v.func) or "").endswith("HashedIterable") and not any(k.arg == "values" for k in v.keywords) \
+            and len(v.args) == 1 and isinstance(v.args[0], ast.Call) and dotted(v.args[0].func) in ("filter", "map", "iter")
+        if not lazy:
+            return f"HashedIterable.filter returns `{unparse(v)[:60]}`, a set whose values are filled at once, so _optimize_or compares real " \
+                   f"variable sets and builds a Union when they differ"
+    eq = hi.methods.get("__eq__")
+    if eq is None or not all("values" in unparse(r.value) or isinstance(r.value, (ast.Constant, ast.Name)) for r in own_nodes(eq.node)
+                             if isinstance(r, ast.Return) and r.value is not None):
+        return "HashedIterable.__eq__ no longer compares the memos only"
+    return None
+
+
 def _accumulating_binding_params(db: ProgramDB) -> List[Instance]:
     """The binding a generator was called with is not extended in place, iteration after iteration, inside a loop over an
     evaluation stream and then handed on: what one iteration adds (the value of a selected variable, of an argument) would
@@ -182,7 +217,16 @@ def _accumulating_binding_params(db: ProgramDB) -> List[Instance]:
                     key = f"{m.short}[`{bp}` extended in the loop over {unparse(loop.iter)[:36]}]"
                     exc = ACCUMULATE_EXCEPTIONS.get((m.short, bp))
                     if exc:
-                        out.append(inst("ROW-FRESH", INFO, m, key, f"frozen exception: {exc}", line=mut.lineno))
+                        reach = union_reachable_through_or(db)
+                        if reach is None:
+                            out.append(inst("ROW-FRESH", INFO, m, key, f"frozen exception: {exc}; or_ / | never build a Union "
+                                            f"(_optimize_or compares two lazily filled variable sets, see the three facts checked)", line=mut.lineno))
+                        else:
+                            out.append(inst("ROW-FRESH", VIOLATION, m, key,
+                                            f"`{unparse(mut)[:50]}` extends the binding Union.evaluate_right was called with - the row of the enclosing "
+                                            f"conjunction - in place; that was tolerable only while or_ / | could not build a Union, which no longer "
+                                            f"holds: {reach}. A disjunction over different variables under and_ then returns rows that depend on the "
+                                            f"order of the operands", line=mut.lineno))
                         continue
                     out.append(inst("ROW-FRESH", VIOLATION, m, key,
                                     f"`{unparse(mut)[:50]}` extends the binding this generator was called with in every iteration of "
@@ -410,4 +454,143 @@ def rule_leaf_overwrite(db: ProgramDB) -> List[Instance]:
                         "a later insert under the same binding replaces the stored output" if ok else
                         f"`{unparse(n)[:50]}` keeps the first output stored under a binding: re-inserting the binding with another "
                         f"output is ignored and retrieval returns the stale one", line=n.lineno))
+    return out
+
+
+# ---------------------------------------------------------------------------------- LEAF-REACHED / WILDCARD-DISTINCT
+def rule_insert_reaches_store(db: ProgramDB) -> List[Instance]:
+    """Every insert into the index tree walks to its leaf: with index=True no path returns before the loop over the keys
+    (an early return for a binding that 'is stored already' keeps the first output stored under it)."""
+    from ..abseval import AbsEval, State, TRUE
+    from ..cfg import CFG
+    out = []
+    ic = db.cls("IndexedCache")
+    m = ic.methods.get("insert")
+    if m is None:
+        raise AnalysisError("IndexedCache.insert not found")
+    cfg = CFG(m)
+    loops = [nd for nd in cfg.nodes if nd.kind == "for" and "keys" in unparse(nd.stmt.iter)]
+    if not loops:
+        raise AnalysisError("IndexedCache.insert: loop over the keys not found")
+    ev = AbsEval(db, m, cfg)
+    ip = "index" if "index" in m.params else None
+    init = State({ip: TRUE}) if ip else State({})
+    p = ev.explore([(cfg.entry, init)], lambda nd: nd.kind in ("return", "exit"), blocked=lambda nd: nd.id == loops[0].id, kinds=("n",))
+    ok = p is None
+    out.append(inst("LEAF-OVERWRITE", HOLDS if ok else VIOLATION, m, "IndexedCache.insert[every insert reaches the leaf store]",
+                    "with index=True every path goes through the loop that walks to the leaf and stores the output" if ok else
+                    "with index=True a path leaves insert() before the leaf is written (" + " ".join(cfg.describe_path(p)[-2:]) + "): an insert under a "
+                    "binding that was inserted before keeps the old output, retrieval returns the stale one", line=m.lineno))
+    return out
+
+
+def rule_wildcard_distinct(db: ProgramDB) -> List[Instance]:
+    """The wildcard sentinel compares equal to everything, so in a dict it is told apart from a stored value only by its
+    hash: the hash has to be one no value can share by construction (derived from the sentinel's identity), not a constant
+    (0 is the hash of 0, False, 0.0 and '')."""
+    out = []
+    c = db.cls("ALL")
+    eq, h = c.methods.get("__eq__"), c.methods.get("__hash__")
+    if eq is None or h is None:
+        raise AnalysisError("ALL.__eq__ / __hash__ not found")
+    eq_true = all(isinstance(r.value, ast.Constant) and r.value.value is True for r in own_nodes(eq.node) if isinstance(r, ast.Return))
+    rets = [r for r in own_nodes(h.node) if isinstance(r, ast.Return) and r.value is not None]
+    ident = all(any(isinstance(x, ast.Call) and dotted(x.func) == "id" for x in ast.walk(r.value)) or
+                "object.__hash__" in unparse(r.value) or "super().__hash__" in unparse(r.value) for r in rets) and bool(rets)
+    ok = ident or not eq_true
+    out.append(inst("WILDCARD-DISTINCT", HOLDS if ok else VIOLATION, h, "ALL.__hash__[not shared with values]",
+                    "the sentinel hashes by identity" if ok else
+                    f"`{unparse(rets[0])}`: the sentinel equals everything and hashes to a value that stored key values can share (0, False, 0.0, ''): "
+                    f"an entry whose key value has that hash and the wildcard entry of the same level are one dict key, so entries are merged "
+                    f"into the wildcard branch or returned for lookups they do not match", line=h.lineno))
+    return out
+
+
+# ---------------------------------------------------------------------------------- CALL-FORWARD
+def rule_call_forward(db: ProgramDB) -> List[Instance]:
+    """A symbolic method call applies the method with the arguments it was built with: the bare form `value.value()` is
+    used only when there are neither positional nor keyword arguments."""
+    from ..boolexpr import guards_of, eval_bool
+    import itertools
+    out = []
+    m = db.method("Call", "_apply_mapping_", inherited=False)
+    calls = [c for c in own_calls(m) if isinstance(c.func, ast.Attribute) and c.func.attr == "value" and isinstance(c.func.value, ast.Name)]
+    if not calls:
+        raise AnalysisError("Call._apply_mapping_: application of the user's callable not found")
+
+    def atom(e):
+        s = unparse(e)
+        def which(s):
+            a, k = "_args_" in s, "_kwargs_" in s
+            return "A" if a and not k else ("K" if k and not a else None)
+        if isinstance(e, (ast.Attribute, ast.Name)) and which(s):
+            return which(s)
+        if isinstance(e, ast.Call) and dotted(e.func) in ("len", "bool") and which(s):
+            return which(s)
+        if isinstance(e, ast.Compare) and len(e.ops) == 1 and which(unparse(e.left)) and isinstance(e.comparators[0], ast.Constant) \
+                and e.comparators[0].value in (0, ()) :
+            w = which(unparse(e.left))
+            if isinstance(e.ops[0], (ast.Gt, ast.NotEq)):
+                return w
+            if isinstance(e.ops[0], (ast.Eq,)):
+                return "!" + w
+        return None
+    for c in calls:
+        fwd_a = any(isinstance(a, ast.Starred) and "_args_" in unparse(a.value) for a in c.args)
+        fwd_k = any(k.arg is None and "_kwargs_" in unparse(k.value) for k in c.keywords)
+        st = c
+        while st is not None and not isinstance(st, ast.stmt):
+            st = db.parent(st)
+        g = guards_of(st, m.node.body) or []
+        bad = None
+        for A, K in itertools.product([False, True], repeat=2):
+            try:
+                reach = all(bool(eval_bool(t, atom, {"A": A, "K": K})) == pol for t, pol in g)
+            except AnalysisError as e:
+                out.append(inst("CALL-FORWARD", UNDECIDED, m, f"Call._apply_mapping_[{unparse(c)[:40]}]", str(e), line=c.lineno))
+                reach = False
+                break
+            if reach and ((A and not fwd_a) or (K and not fwd_k)):
+                bad = (A, K)
+        out.append(inst("CALL-FORWARD", HOLDS if bad is None else VIOLATION, m, f"Call._apply_mapping_[{unparse(c)[:40]}]",
+                        "reached only with the arguments it forwards" if bad is None else
+                        f"`{unparse(c)}` is reached when positional arguments {'exist' if bad[0] else 'are absent'} and keyword arguments "
+                        f"{'exist' if bad[1] else 'are absent'}, and does not forward them: p.older_than(limit=40) is executed as p.older_than()", line=c.lineno))
+    return out
+
+
+# ---------------------------------------------------------------------------------- KWARGS-KEPT
+def rule_kwargs_kept(db: ProgramDB) -> List[Instance]:
+    """Every field constraint / constructor argument that was given reaches the variable: the keyword dictionary is not
+    filtered by the VALUE of an argument (None, 0, '' and [] are constants like any other)."""
+    out = []
+    n = 0
+    for q in ("predicate:update_domain_and_kwargs_from_args", "predicate:symbol.<locals>.symbolic_new", "predicate:extract_selected_variable_and_expression",
+              "predicate:predicate.<locals>.wrapper", "symbolic:Variable._update_child_vars_from_kwargs_"):
+        fn = db.fn(q, required=False)
+        if fn is None:
+            continue
+        n += 1
+        bad = None
+        for x in own_nodes(fn.node):
+            if isinstance(x, (ast.DictComp, ast.ListComp, ast.GeneratorExp)):
+                for g in x.generators:
+                    if "kwargs" in unparse(g.iter).lower() and g.ifs and isinstance(g.target, ast.Tuple) and len(g.target.elts) == 2:
+                        vn = unparse(g.target.elts[1])
+                        for t in g.ifs:
+                            if vn in {y.id for y in ast.walk(t) if isinstance(y, ast.Name)}:
+                                bad = x
+            if isinstance(x, ast.For) and "kwargs" in unparse(x.iter).lower() and isinstance(x.target, ast.Tuple) and len(x.target.elts) == 2:
+                vn = unparse(x.target.elts[1])
+                for st in x.body:
+                    if isinstance(st, ast.If) and vn in {y.id for y in ast.walk(st.test) if isinstance(y, ast.Name)} and any(
+                            isinstance(z, (ast.Continue, ast.Delete)) or (isinstance(z, ast.Call) and call_attr(z) == "pop") for z in ast.walk(st)) \
+                            and not any(isinstance(z, ast.Call) and dotted(z.func) == "isinstance" for z in ast.walk(st.test)):
+                        bad = st
+        out.append(inst("KWARGS-KEPT", HOLDS if bad is None else VIOLATION, fn, f"{fn.short}[given arguments are kept]",
+                        "no given keyword is dropped because of its value" if bad is None else
+                        f"`{unparse(bad)[:80]}` drops keywords by their value: T(From(d), f=None) then ranges over every member of d instead of those "
+                        f"whose f is None, and a constructor argument None is replaced by the class default", line=getattr(bad, "lineno", fn.lineno) if bad is not None else fn.lineno))
+    if n < 3:
+        raise AnalysisError("the functions that carry the keyword arguments of a term were not found")
     return out
